@@ -167,6 +167,9 @@ func (d *Decoder) decodeValue(value reflect.Value) {
 	}
 
 	val := d.decodeValueGeneral(value)
+	if d.err != nil {
+		return // unsupported kind of value (like struct without tl.Object implementation) or read error
+	}
 	if val != nil {
 		value.Set(reflect.ValueOf(val).Convert(value.Type()))
 		return
